@@ -142,7 +142,8 @@ def ord_merge(p, res):
             res.ok('%s (get with default)' % src_of(n.args[0]))
     # ---- Config.__init__ : what is passed for (syntax_type, syntax, section, user, global)
     init = p.func('config.Config.__init__')
-    inode = norm.nf(p, init, inline=False)
+    inode = shape.spell_constants(p, init, norm.nf(p, init, inline=False))
+    inode.body = shape.setattr_as_store(shape.unroll_literal_loops(inode.body))
     idefs = shape.defs_of(inode, params=init.params)
     if len(init.params) < 3:
         raise AnalysisError('ORD-MERGE: Config.__init__ parameters changed')
@@ -166,13 +167,15 @@ def ord_merge(p, res):
             res.bad(F('ORD-MERGE', init, c, src_of(c), 'second argument must be the syntax name (user syntax, else the default syntax of the type), is %s' % a[1]))
         elif a[3] != ucfg or a[4] != gcfg:
             res.bad(F('ORD-MERGE', init, c, src_of(c), 'the call\'s own config and the global config must be passed as 4th and 5th argument, in this order'))
-        elif not isinstance(sec, str) or field != 'self.%s' % sec:
+        elif not isinstance(sec, str) or field is None:
+            res.undecided('%s = %s' % (field, src_of(c)), 'the section name or the field it is stored in is computed')
+        elif field != 'self.%s' % sec:
             res.bad(F('ORD-MERGE', init, c, '%s = %s' % (field, src_of(c)), 'section %r must be stored in the field of the same name' % sec))
         else:
             secs[sec] = field
             res.ok('self.%s = merged_data(type, syntax, %r, user, global)' % (sec, sec))
     for sec in ('variables', 'snippets', 'options'):
-        if sec not in secs and len(calls) >= 1:
+        if sec not in secs and len(calls) >= 1 and not res.undecideds:
             res.bad(F('ORD-MERGE', init, init.node, "merged_data(.., %r, ..)" % sec, 'section %r is not merged (correctly)' % sec)) if len(secs) + 1 <= len(calls) else None
     stores = {src_of(n.targets[0]): src_of(shape.expand(n.value, idefs)) for n in shape.own_nodes(inode) if isinstance(n, ast.Assign) and len(n.targets) == 1 and src_of(n.targets[0]).startswith('self.')}
     if stores.get('self.type') == want_type and stores.get('self.syntax') == "%s.get('syntax', DEFAULT_SYNTAXES.get(%s, 'html'))" % (ucfg, want_type):
